@@ -31,6 +31,7 @@ CacheIncoherent(I, F, post) ==
 (* --- predicates of the properties, evaluated on the LOGGED state ------- *)
 StateClauses(I, F, post) ==
     LET c == post.core IN
+    IF ~WellTypedSchedule(I, c.sched) THEN {C("C01:infeasible"), C("C01:schedule-mentions-foreign-operations")} ELSE
        If(~Feasible(I, c.sched), {C("C01:infeasible")})
   \cup If(post.der.complete # Complete(I, c.sched), {C("C01:complete-flag")})
   \cup If(~TrackingOK(I, c), {C("C02:tracking")})
@@ -270,6 +271,7 @@ ScoreRuleClauses(T, prev, ev, post) ==
 SolverCallClauses(T, prev, ev, post) ==
     LET I == T.inst IN
     IF ev.out # "ok" THEN {Tag("C04:solver-raised", ev.out)}
+    ELSE IF ~WellTypedSchedule(I, ev.sched) THEN {C("C04:solver-infeasible")}
     ELSE   If(~Feasible(I, ev.sched), {C("C04:solver-infeasible")})
       \cup If(~Complete(I, ev.sched), {C("C04:solver-incomplete")})
       \cup If(ev.elapsed_sign < 0, {C("C04:negative-elapsed-time")})
@@ -292,6 +294,7 @@ CpSatClauses(T, prev, ev, post) ==
     IF ev.out = "exc:NoSolutionFoundError"
     THEN If(ev.mode # "timelimit", {C("C03:no-solution-without-time-limit")})
     ELSE IF ev.out # "ok" THEN {Tag("C03:cpsat-raised", <<ev.mode, ev.out>>)}
+    ELSE IF ~WellTypedSchedule(I, ev.sched) THEN {Tag("C03:infeasible", ev.mode), Tag("C03:schedule-mentions-foreign-operations", ev.mode)}
     ELSE   If(~Feasible(I, ev.sched), {Tag("C03:infeasible", ev.mode)})
       \cup If(~Complete(I, ev.sched), {Tag("C03:incomplete", ev.mode)})
       \cup If(ev.makespan # MakespanDef(I, ev.sched), {C("C03:reported-makespan")})
@@ -341,6 +344,7 @@ SolvedClauses(T, prev, ev, post) ==
         E == {<<ev.edges[i][1], ev.edges[i][2]>> : i \in DOMAIN ev.edges}
         N == NumOps(I) + 2
     IN IF ev.out # "ok" THEN {Tag("C16:solved-raised", ev.out)}
+       ELSE IF ~WellTypedSchedule(I, sch) THEN {C("C16:solved-graph-of-malformed-schedule")}
        ELSE GraphShapeClauses("solved", I, ev, SolvedPairs(I, sch))
        \cup (IF PositiveDurations(I) /\ Complete(I, sch) /\ Feasible(I, sch)
              THEN   If(~Acyclic(E, N) \/ ~ev.is_dag, {C("C16:solved-cyclic")})
@@ -442,12 +446,13 @@ FromSeqsClauses(T, prev, ev, post) ==
     LET I == T.inst  P == ev.P IN
     IF ~IsPermTuple(I, P)
     THEN \* malformed sequences: outside the statement's quantifier; only "an exception or a feasible complete schedule, no hang"
-         If(ev.out = "hang" \/ (ev.out = "ok" /\ ~(Feasible(I, ev.sched) /\ Complete(I, ev.sched))), {C("C14:fromseqs-malformed-input")})
+         If(ev.out = "hang" \/ (ev.out = "ok" /\ ~(WellTypedSchedule(I, ev.sched) /\ Feasible(I, ev.sched) /\ Complete(I, ev.sched))), {C("C14:fromseqs-malformed-input")})
     ELSE LET exp == Rebuild(I, P) IN
            If(ev.out = "hang", {C("C14:fromseqs-hang")})
       \cup If((ev.out = "ok") # AdmitsSchedule(I, P), {C("C14:fromseqs-accepts-iff-schedulable")})
       \cup If(ev.out \notin {"ok", "exc:ValidationError", "hang"}, {Tag("C14:fromseqs-raised", ev.out)})
-      \cup (IF ev.out = "ok"
+      \cup (IF ev.out = "ok" /\ ~WellTypedSchedule(I, ev.sched) THEN {C("C14:fromseqs-infeasible")}
+            ELSE IF ev.out = "ok"
             THEN   If(~Feasible(I, ev.sched) \/ ~Complete(I, ev.sched), {C("C14:fromseqs-infeasible")})
               \cup If(JobSequences(ev.sched) # P, {C("C14:fromseqs-order")})
               \cup If(exp.out = "ok" /\ ev.sched # exp.s.sched, {C("C14:fromseqs-schedule")})
@@ -487,6 +492,7 @@ PlotClauses(T, prev, ev, post) ==
     LET I == T.inst  sch == ev.sched
  IN
     IF ev.out # "ok" THEN {Tag("C20:plot-raised", ev.out)}
+    ELSE IF ~WellTypedSchedule(I, sch) THEN {C("C20:bars")}
     ELSE LET present == {e[1] : e \in AllE(sch)}
              legJobs == [i \in DOMAIN ev.legend |-> ev.legend[i][1]]
              col == [j \in present |-> LET hits == {i \in DOMAIN ev.legend : ev.legend[i][1] = j}
